@@ -21,7 +21,7 @@ class Cov(np.ndarray):
 
         if isinstance(values, cls):
             frame = values.frame
-            values = values.base
+            values = np.asarray(values)
 
         buf = np.array(values)
 
@@ -60,7 +60,7 @@ class Cov(np.ndarray):
 
     def copy(self, frame=None):
         """"""
-        new = self.__class__(self.orb, self.base, frame=self.frame)
+        new = self.__class__(self.orb, np.asarray(self), frame=self.frame)
         if frame is not None:
             new.frame = frame
         return new
@@ -70,6 +70,15 @@ class Cov(np.ndarray):
             return
 
         self._data = obj._data.copy()
+
+    def __reduce__(self):
+        """For pickling, as for StateVector"""
+        reconstruct, clsinfo, state = super().__reduce__()
+        return reconstruct, clsinfo, {"basestate": state, "data": self._data}
+
+    def __setstate__(self, state):
+        super().__setstate__(state["basestate"])
+        self._data = state["data"]
 
     @property
     def frame(self):
@@ -144,9 +153,9 @@ class Cov(np.ndarray):
         M = m2 @ m1
 
         # https://robotics.stackexchange.com/questions/2556/how-to-rotate-covariance
-        cov = M @ self.base @ M.T
+        cov = M @ np.asarray(self) @ M.T
 
-        self.base.setfield(cov, dtype=float)
+        np.asarray(self)[:] = cov
         self._data["frame"] = frame
 
     @property
